@@ -11,6 +11,10 @@ CLAIMS = {
  'C14': dict(text="Static access-discipline analysis over every memory access in API-reachable code: writes to words that lock-free readers load (slots, meta/top-hash, chain link, table pointer, resize flag, counter stripes) are sync/atomic or go to an object of the current activation that nothing reaching the store has published; plain reads of such words happen only with the bucket lock of the very chain in the must-lockset or on unpublished objects; immutable-after-publication fields are written only before publication; slot pointers are nil or per-call allocations; settings live in atomic.Value with one dynamic type; janitor-shared variables are not written after the go statement; 64-bit atomic operands are aligned under the 386 layout. This decides the mechanism the property anchors (a necessary condition for race freedom of this design), not the race detector's verdict on executions.",
              note="Trusted: go/types + go/ssa, Go memory model for sync/atomic and lock acquire/release ordering, C13.L1 (lock pairing) checked separately. Out of scope: functions unreachable from the public API (Stats), user callbacks and values.",
              tech="static analysis: access-path x lockset x allocation-provenance classification over SSA", ref="DESIGN.md §3 C14"),
+
+ 'C16': dict(text="Static effect and loop-shape analysis: the lookup entry points (Load, Size/counter sum, Count) transitively reach no lock, blocking primitive, yield, read of the resize flag, shared write or user call other than the hasher; every loop in them is of an accepted non-waiting kind (bounded scan, chain walk to nil, SWAR scan, snapshot retry that repeats only if two atomic loads of one slot differ); in the load-if-exists mode of the compute core the lock-free lookup precedes every lock acquire and its hit edge returns unlocked; the cache read path reaches a locking map operation only on the expired outcome of an expiry test of the loaded item; the resize copy never writes through its source chain. Necessary conditions for 'reads never wait', decided on all paths; step counts and progress of the snapshot retry under a never-pausing writer are not decided.",
+             note="Trusted: go/ssa, a frozen effect table for the standard-library callees the library uses (an unlisted callee fails the rule), hashers assumed non-blocking.",
+             tech="static analysis: bottom-up call-graph effect sets, natural-loop classification, specialised CFG precedence and dominance queries", ref="DESIGN.md §3 C16"),
 }
 checks = []
 for i in ids:
